@@ -222,6 +222,36 @@ func (x *Exec) callContract(fi *FuncInfo, con *Contract, recv *Val, args []Val, 
 	failedOld := map[string]string{}
 	x.c.inContract++
 	for _, m := range con.Modifies {
+		if id, ok := m.Expr.(*ast.Ident); ok && id.Name == "everything" {
+			// no frame at all: every array may have been rewritten, the arguments' writers/channels used, memory allocated
+			for _, es := range sortedKeys(c.heapSorts) {
+				st.heaps[es] = c.freshConst("H", c.heapName(es))
+			}
+			if !x.modAll {
+				x.oblige("frame", ordinal, node.Pos(), st, "false", "call to "+fi.Key+" (modifies everything) may write to any array")
+			}
+			for _, hv := range args {
+				if cur, ok := st.gh["failed:"+hv.T]; ok {
+					nf := c.freshConst("failed", "Bool")
+					c.assume("true", implies(cur.T, nf))
+					st.gh["failed:"+hv.T] = Val{T: nf, Ty: tBool}
+				}
+				for _, pre := range []string{"written:", "sent:"} {
+					if cur, ok := st.gh[pre+hv.T]; ok {
+						sq := *cur.Seq
+						sq.Arr = c.freshConst(pre+"h", "(Array Int "+sq.ESort+")")
+						sq.N = c.freshConst(pre+"n", "Int")
+						c.assume("true", app(">=", sq.N, cur.Seq.N))
+						c.assumes = append(c.assumes, fmt.Sprintf("(forall ((j Int)) (! (=> (and (<= 0 j) (< j %s)) (= (select %s j) (select %s j))) :pattern ((select %s j))))", cur.Seq.N, sq.Arr, cur.Seq.Arr, sq.Arr))
+						st.gh[pre+hv.T] = Val{Seq: &sq, Ty: cur.Ty}
+					}
+				}
+			}
+			allocPre := st.alloc
+			st.alloc = c.freshConst("alloc", "Int")
+			c.assume("true", app(">=", st.alloc, allocPre))
+			continue
+		}
 		// writer / channel handles
 		if id, ok := m.Expr.(*ast.Ident); ok {
 			if v, ok := names[id.Name]; ok && v.Ty != nil {
@@ -394,6 +424,42 @@ func (x *Exec) callUnknown(full string, fn *types.Func, recv *Val, n *ast.CallEx
 		touches = true
 	}
 	c.unspecified[full] = true
+	// writers and channels handed to an unspecified callee: it may write (and fail) / send any number of items
+	handles := []Val{}
+	for _, a := range n.Args {
+		func() {
+			saved := c.inContract
+			defer func() {
+				c.inContract = saved
+				recover()
+			}()
+			c.inContract++
+			v := x.eval(a, st.clone(), env)
+			if v.Ty != nil {
+				handles = append(handles, v)
+			}
+		}()
+	}
+	if recv != nil {
+		handles = append(handles, *recv)
+	}
+	for _, hv := range handles {
+		if cur, ok := st.gh["failed:"+hv.T]; ok {
+			nf := c.freshConst("failed", "Bool")
+			c.assume("true", implies(cur.T, nf))
+			st.gh["failed:"+hv.T] = Val{T: nf, Ty: tBool}
+		}
+		for _, pre := range []string{"written:", "sent:"} {
+			if cur, ok := st.gh[pre+hv.T]; ok {
+				sq := *cur.Seq
+				sq.Arr = c.freshConst(pre+"h", "(Array Int "+sq.ESort+")")
+				sq.N = c.freshConst(pre+"n", "Int")
+				c.assume("true", app(">=", sq.N, cur.Seq.N))
+				c.assumes = append(c.assumes, fmt.Sprintf("(forall ((j Int)) (! (=> (and (<= 0 j) (< j %s)) (= (select %s j) (select %s j))) :pattern ((select %s j))))", cur.Seq.N, sq.Arr, cur.Seq.Arr, sq.Arr))
+				st.gh[pre+hv.T] = Val{Seq: &sq, Ty: cur.Ty}
+			}
+		}
+	}
 	if touches {
 		for _, es := range sortedKeys(c.heapSorts) {
 			st.heaps[es] = c.freshConst("H", c.heapName(es))
